@@ -32,6 +32,14 @@ checks = {
   "Runs every ordering of the writer's filters over payloads from 0 B to 1 MiB: Apply/Remove identity, pipeline-message encode/parse identity, the reader's decoder on the writer's bytes, single-byte corruption of Fletcher-32 protected chunks on both decoders, plus filtered datasets end to end through the public API.",
   "Fletcher-32 blind spot (0x0000 vs 0xFFFF words) excluded; Apply errors accepted only for shuffle length mismatches.",
   TECH + ": identity and corruption-detection oracles over real filter executions"),
+ "C09": ("exploration",
+  "Enumerates hyperslab selections (start/count/stride/block per axis, ranks 1-3, contiguous/compact/chunked/filtered, chunk shapes that do not divide the extents) and ReadSlice calls against datasets with position-encoding values, computes the expected elements from the coordinates alone and compares order and values; invalid selections (out of range, zero counts, overflowing arithmetic, block>stride) must be refused; the chunk iterator must tile the dataset exactly once.",
+  "Selections are bounded by the small extents (<= 12 per axis) the generator uses; float64 is the reader's documented result type.",
+  TECH + ": reference-model oracle (coordinate arithmetic) over real selection reads"),
+ "C13": ("exploration",
+  "Creates resizable chunked datasets (rank 1-3, dividing and non-dividing chunks, fixed/unlimited maxima, plain or filtered, superblock 0/2/3), applies 1-10 grow/shrink/rewrite/beyond-maximum steps in four patterns while an N-d array model is resized with the same calls; acceptance of every step is compared with the declared maximum and, after Close and reopen, shape and every element with the model (retained, zero-filled, nothing resurrected).",
+  "Written values are never zero so a zero always means unwritten; extents <= 40 per axis.",
+  TECH + ": executable array model stepped with call outcomes, checked after reopen"),
  "C11": ("exploration",
   "For 15 encoder/decoder pairs, generates well-formed values with boundary cases, encodes twice (determinism), decodes and compares every field, re-encodes where possible.",
   "Array/enum properties are read back by a direct reading of the documented layout (no library decoder exists); documented normalisations applied.",
